@@ -1,6 +1,7 @@
 (* C16  The OS poller holds exactly the fds of enabled sources, nothing stale. *)
-From CV Require Import Base Consts Token PostAction Env Loop.
-From CVP Require Import Loop_frames Seq_lemmas Env_lemmas.
+From CV Require Import Base Consts Token PostAction Env Loop GenLife.
+From CVP Require Import Loop_frames Seq_lemmas Env_lemmas GenLife_proofs.
+Import ListNotations.
 Open Scope N_scope.
 
 (* register: the fd was absent, is present afterwards with exactly the interest, mode and key asked for, and no other
@@ -24,6 +25,42 @@ Proof. intros. unfold ep_add. rewrite H. eexists; reflexivity. Qed.
 (* a double registration of one fd is refused (EEXIST) instead of silently replacing the entry *)
 Theorem C16_no_double : forall tbl fd it m key c e, ep_find tbl fd = Some e -> ep_add tbl fd it m key c = None.
 Proof. intros. unfold ep_add. rewrite H. reflexivity. Qed.
+
+(* WHOLE HISTORIES at the level of Generic (coq/theories/GenLife.v: Generic::new, the public interest / mode fields, register,
+   reregister, unregister, unwrap and Drop over any number of Generic objects and fds, two objects possibly wrapping one fd, whose
+   second registration fails with EEXIST). After ANY history, failed registrations included:
+   - every entry of the poller's table belongs to a registered Generic and carries the interest, mode and key that Generic last
+     (re)registered; every registered Generic has its entry; no two registered Generics share an fd - nothing stale, nothing missing;
+   - once a registered Generic has been unregistered, unwrapped or dropped its fd is out of the table, and a fresh Generic over the
+     same fd registers without error.
+   `gl_last` is ghost state used only to say "what it last registered". Protocol: unregister / reregister are only issued for a
+   registered Generic (what the loop does); everything else, including operations on objects that do not exist, is in. *)
+Theorem C16_generic_table_exact : forall ops, let s := gl_exec ops in
+  (forall fd ent, ep_find (epoll (gl_env s)) fd = Some ent ->
+     exists g gn, gl_gens s g = Some gn /\ g_fd gn = fd /\ registered gn /\ gl_last s g = Some (e_int ent, e_mode ent, e_key ent)) /\
+  (forall g gn, gl_gens s g = Some gn -> registered gn ->
+     exists ent, ep_find (epoll (gl_env s)) (g_fd gn) = Some ent /\ gl_last s g = Some (e_int ent, e_mode ent, e_key ent)) /\
+  (forall g1 g2 gn1 gn2, gl_gens s g1 = Some gn1 -> gl_gens s g2 = Some gn2 -> registered gn1 -> registered gn2 ->
+     g_fd gn1 = g_fd gn2 -> g1 = g2).
+Proof. exact table_exact. Qed.
+Theorem C16_released_fd_is_gone_and_reinsertable : forall ops o g gn g2 it m k,
+  let s := gl_exec ops in gl_gens s g = Some gn -> registered gn -> (o = GUnreg g \/ o = GUnwrap g \/ o = GDrop g) ->
+  snd (gl_step s o) = G_OK -> g2 <> g -> gl_gens s g2 = None ->
+  let s1 := fst (gl_step s o) in let s2 := fst (gl_step s1 (GNew g2 (g_fd gn) it m)) in
+  ep_find (epoll (gl_env s1)) (g_fd gn) = None /\ snd (gl_step s2 (GReg g2 k)) = G_OK.
+Proof.
+  cbv zeta. intros ops o g gn g2 it m k Hg R Ho Hok Hne Hn. split.
+  - apply (released_fd_gone _ o g gn (INVG_exec ops) Hg R Ho Hok).
+  - apply (released_fd_reinsertable ops o g gn g2 it m k Hg R Ho Hok Hne Hn).
+Qed.
+(* met by a real history: two Generics on fd 10 (the second registration fails), set + reregister, unwrap of a registered one *)
+Example C16_generic_nonvacuous :
+  let it := mkInt true false in
+  let ops := [GNew 1 10 it Level; GReg 1 2; GNew 2 10 (mkInt true true) Edge; GReg 2 0; GSet 1 (mkInt true true) OneShot; GRereg 1 5] in
+  map fst (gl_run ops) = [0; 0; 0; 1; 0; 0] /\
+  (exists gn, gl_gens (gl_exec ops) 1 = Some gn /\ registered gn /\ gl_last (gl_exec ops) 1 = Some (mkInt true true, OneShot, 5)) /\
+  snd (gl_step (gl_exec ops) (GUnwrap 1)) = G_OK /\ gl_table (fst (gl_step (gl_exec ops) (GUnwrap 1))) = [].
+Proof. vm_compute. split; [reflexivity|split; [eexists; split; [reflexivity|split; [discriminate|reflexivity]]|split; reflexivity]]. Qed.
 
 Example C16_nonvacuous :
   exists g' e', gen_register (en init) (mkGen 10 (mkInt true false) Level None false) (mkTok 0 0 1) = (true, g', e').
